@@ -185,7 +185,8 @@ type st = { cap : nat; q : nat list; scount : z; rcount : z; pdrop :
             rf : (rfut * bool) option; next : nat; accepted : nat list;
             received : nat list; returned : nat list; dropped : nat list;
             drained : nat list; s_pend : nat option; s_woken : bool;
-            r_pend : (owner * nat) option; r_woken : bool; rdisc : bool;
+            r_pend : (owner * nat) option; r_woken : bool;
+            st_pend : nat option; st_woken : bool; rdisc : bool;
             s_ever : bool; r_ever : bool; ev : event list }
 
 val set_q : nat list -> st -> st
@@ -231,6 +232,10 @@ val set_s_woken : bool -> st -> st
 val set_r_pend : (owner * nat) option -> st -> st
 
 val set_r_woken : bool -> st -> st
+
+val set_st_pend : nat option -> st -> st
+
+val set_st_woken : bool -> st -> st
 
 val set_rdisc : bool -> st -> st
 
